@@ -243,9 +243,27 @@ func c07A(c *core.Case) {
 				c.Violate("C07/setup", "open lock file: "+err.Error(), nil)
 				return
 			}
+			// every other case: giving the lock back fails as well (the primary cannot
+			// be reached for a moment, or the call was interrupted) - the lock then
+			// ends on the primary with its TTL, and locally it must be gone all the same
+			releaseFails := (c.Index/42)%2 == 1
+			if releaseFails {
+				R.Client.Before = func(op string) error {
+					if op == "unhalt" {
+						return errors.New("scripted: release request does not get through")
+					}
+					return nil
+				}
+			}
 			lctx, cancel := context.WithTimeout(context.Background(), 10*time.Second)
 			aerr := lf.LockWait(lctx, 33, 72, 72, true)
 			cancel()
+			if releaseFails {
+				R.Client.Before = nil
+				if aerr != nil {
+					c.Count("halt_acquire_failed_and_release_failed", 1)
+				}
+			}
 			if rdshm != nil {
 				rdshm.Close(rdOwner)
 			}
